@@ -133,6 +133,9 @@ func TestVerifC12(t *testing.T) {
 		topologies = append(topologies,
 			[]c12Mount{{"", "deep/er/mount/", false, ""}, {"", "deeper/", false, ""}, {"ns1/", "deep/", false, ""}, {"ns1/", "mm/", false, ""}, {"ns1/ns2/", "a/", true, ""}, {"ns3/", "a/", true, ""}})
 	}
+	if i, _ := vout.Shard(); i == 0 {
+		c12PartG(t, res)
+	}
 	count := 0
 	for ti, topo := range topologies {
 		s := Build(t, Options{})
